@@ -2,7 +2,7 @@
 
 use crate::chain::{Outcome, World, KEY_CONTRACT_INFO, KEY_VERSION_INFO};
 use crate::exec::{Judge, Prop};
-use crate::model::{apply_change, cfg_equiv};
+use crate::model::apply_change;
 use crate::wire::{self, Bid, BidV2, CfgChange, Ev};
 use serde_json::Value;
 
@@ -215,7 +215,7 @@ pub fn c14(j: &mut Judge, before: &World, after: &World, msg: &Value, out: &Outc
     // configuration: exactly the requested overrides
     if let (Some(bc), Some(ac)) = (&bb.cfg, &ab.cfg) {
         let want = apply_change(bc, &ch, false);
-        if !cfg_equiv(&want, ac) {
+        if &want != ac {
             j.violate(
                 Prop::C14,
                 "overrides-applied-exactly",
